@@ -144,7 +144,23 @@ def _local_docs():
             "Owner": {"type": "object", "properties": {"name": {"type": "string"}, "pets": {"type": "array", "items": {"$ref": S + "Pet"}}}},
         }},
     }
-    return {"local:shared-component-parameters": shared, "local:acyclic-graph": acyclic, "local:ref-siblings": siblings, "local:inline-names": inline_names}
+    # inline (not $ref'd) request bodies and responses that carry the SAME `title` but different schemas, on several operations: whatever names the generator
+    # derives for them must not let the order of `paths` decide which operation gets which fields
+    def _body(props_):
+        return {"required": True, "content": {"application/json": {"schema": {"type": "object", "title": "Search Request", "properties": props_}}}}
+    titled = {
+        "openapi": "3.0.3", "info": {"title": "titled", "version": "1"},
+        "paths": {
+            "/pets/search": {"post": {"operationId": "searchPets", "tags": ["s"], "requestBody": _body({"species": {"type": "string"}, "limit": {"type": "integer"}}),
+                                      "responses": {"200": {"description": "o", "content": {"application/json": {"schema": {"type": "object", "title": "Result", "properties": {"pets": {"type": "array", "items": {"type": "string"}}}}}}}}}},
+            "/owners/search": {"post": {"operationId": "searchOwners", "tags": ["s"], "requestBody": _body({"city": {"type": "string"}, "active": {"type": "boolean"}}),
+                                        "responses": {"200": {"description": "o", "content": {"application/json": {"schema": {"type": "object", "title": "Result", "properties": {"owners": {"type": "array", "items": {"type": "integer"}}}}}}}}}},
+            "/vets/search": {"post": {"operationId": "searchVets", "tags": ["s"], "requestBody": _body({"clinic": {"type": "string"}}), "responses": ok}},
+        },
+        "components": {"schemas": {}},
+    }
+    return {"local:shared-component-parameters": shared, "local:acyclic-graph": acyclic, "local:ref-siblings": siblings, "local:inline-names": inline_names,
+            "local:titled-inline-bodies": titled}
 
 
 def bounded_renderings_and_orders(tier, seed):
